@@ -29,17 +29,18 @@ import (
 )
 
 type Request struct {
-	Kind     string          `json:"kind"` // edit-json edit-xml find query where setvalue
-	Strategy string          `json:"strategy,omitempty"`
-	Path     string          `json:"path"`
-	Doc      string          `json:"doc,omitempty"`
-	Query    string          `json:"query,omitempty"`
-	Value    json.RawMessage `json:"value,omitempty"`
-	ReadKind string          `json:"read_fault,omitempty"` // error eof eof-with-data
-	ReadAt   int             `json:"read_at,omitempty"`
-	Chunks   []int           `json:"chunks,omitempty"`
-	Damage   string          `json:"damage"`           // none, or what was done to the valid request
-	Inside   bool            `json:"inside,omitempty"` // truncation/read fault strictly inside the document
+	Kind       string          `json:"kind"` // edit-json edit-xml find query where setvalue
+	Strategy   string          `json:"strategy,omitempty"`
+	Path       string          `json:"path"`
+	Doc        string          `json:"doc,omitempty"`
+	Query      string          `json:"query,omitempty"`
+	Value      json.RawMessage `json:"value,omitempty"`
+	ReadKind   string          `json:"read_fault,omitempty"` // error eof eof-with-data
+	ReadAt     int             `json:"read_at,omitempty"`
+	Chunks     []int           `json:"chunks,omitempty"`
+	Damage     string          `json:"damage"`                // none, or what was done to the valid request
+	Inside     bool            `json:"inside,omitempty"`      // truncation/read fault strictly inside the document
+	MustReject bool            `json:"must_reject,omitempty"` // the body's shape disagrees with the schema at a container or list
 }
 
 type Session struct {
@@ -296,6 +297,10 @@ func Run(s *Session) (out SessOutcome) {
 					break
 				}
 			}
+		}
+		if o.Problem == "" && rq.MustReject && o.Kind == "ok" && o.Err == "" {
+			o.Problem = fmt.Sprintf("the document's shape disagrees with the schema (%s) and the request was accepted", rq.Damage)
+			o.ProblemK = "shape-mismatch-accepted:" + rq.Kind + ":" + rq.Damage
 		}
 		if o.Problem == "" && (rq.Kind == "edit-json" || rq.Kind == "edit-xml") && rq.Inside && o.Kind == "ok" && o.Err == "" {
 			o.Problem = fmt.Sprintf("the document was cut or failed strictly inside (%s) and the request was accepted", rq.Damage)
